@@ -395,7 +395,7 @@ func checkDetachPartition(c *Ctx) {
 					if isField(info, as.Lhs[0], pSchema, "Table", "ForeignKeys") {
 						if id, ok := as.Rhs[0].(*ast.Ident); ok {
 							// the variable holding only self references: appended under fk.RefTable == change.T
-							okCopy = info.ObjectOf(id) != nil && !isNilIdent(info, id)
+							okCopy = info.ObjectOf(id) != nil && !isNilIdent(info, id) && onlySelfRefsAppended(info, cc, info.ObjectOf(id))
 						}
 					}
 					return true
@@ -539,6 +539,66 @@ func checkSortMap(c *Ctx) {
 				return true
 			})
 			c.Check("R04d", "sortMap.visit|meeting an in-progress node reports a cycle", visit.Pos(), cyc, "visiting a node that is in progress must report a cycle")
+			// every node is a root: the loops that call visit run to completion unless a cycle is reported
+			nLoops := 0
+			ast.Inspect(fi.Decl.Body, func(m ast.Node) bool {
+				rs, isRange := m.(*ast.RangeStmt)
+				if !isRange {
+					return true
+				}
+				callsVisit := false
+				for _, st := range rs.Body.List {
+					walkShallow(st, func(k ast.Node) bool {
+						if isRecurse(k) {
+							callsVisit = true
+						}
+						return true
+					})
+					if ifs, ok := st.(*ast.IfStmt); ok && isRecurse(ifs.Cond) {
+						callsVisit = true
+					}
+				}
+				if !callsVisit {
+					return true
+				}
+				nLoops++
+				where := "root loop"
+				if rs.Pos() > visit.Pos() && rs.End() < visit.End() {
+					where = "dependency loop"
+				}
+				early := ""
+				var scan func(n ast.Node, depth int)
+				scan = func(n ast.Node, depth int) {
+					ast.Inspect(n, func(k ast.Node) bool {
+						switch x := k.(type) {
+						case *ast.FuncLit:
+							return false
+						case *ast.ForStmt, *ast.RangeStmt, *ast.SwitchStmt, *ast.TypeSwitchStmt, *ast.SelectStmt:
+							if k != n {
+								// break/continue inside a nested breakable statement: only labelled ones or `continue` in switch leave our loop
+								ast.Inspect(k, func(j ast.Node) bool {
+									if b, ok := j.(*ast.BranchStmt); ok && (b.Label != nil || b.Tok == token.CONTINUE && !isLoop(k)) {
+										early = c.pos(b.Pos()) + " " + b.Tok.String()
+									}
+									return true
+								})
+								return false
+							}
+						case *ast.BranchStmt:
+							if x.Tok == token.BREAK || x.Tok == token.CONTINUE || x.Tok == token.GOTO {
+								early = c.pos(x.Pos()) + " " + x.Tok.String()
+							}
+						}
+						return true
+					})
+				}
+				scan(rs.Body, 0)
+				c.Check("R04d", "sortMap|"+where+" visits every node", rs.Pos(), early == "", "the %s of sortMap can be left early (%s): nodes after that point are never visited, so a cycle among them is not detected and they get no position", where, early)
+				return true
+			})
+			if nLoops < 2 {
+				c.Unresolved("R04d", "sortMap: the two loops that call visit (roots, dependencies)")
+			}
 		}
 	}
 	if df := c.Func("R04d", pSqlx, "", "DetachCycles"); df != nil {
@@ -658,4 +718,73 @@ func checkPointerIdentity(c *Ctx) {
 		c.Note("R04f: no pointer comparison between change tables in dependsOn")
 		c.Check("R04f", "dependsOn|no pointer comparisons", fi.Decl.Pos(), true, "")
 	}
+}
+
+// onlySelfRefsAppended reports whether every `v = append(v, …)` in the case clause is nested in an
+// if-branch whose edge implies fk.RefTable == <the table> (a foreign key kept inline in CREATE TABLE
+// may only point at the table being created).
+func onlySelfRefsAppended(info *types.Info, cc *ast.CaseClause, v types.Object) bool {
+	isSelfFact := func(f fact) bool {
+		be, ok := ast.Unparen(f.expr).(*ast.BinaryExpr)
+		if !ok {
+			return false
+		}
+		refX, refY := isField(info, be.X, pSchema, "ForeignKey", "RefTable"), isField(info, be.Y, pSchema, "ForeignKey", "RefTable")
+		if refX == refY {
+			return false
+		}
+		other := be.Y
+		if refY {
+			other = be.X
+		}
+		if !typeIs(derefType(info.TypeOf(other)), pSchema, "Table") {
+			return false
+		}
+		return be.Op == token.EQL && f.val || be.Op == token.NEQ && !f.val
+	}
+	n, ok := 0, true
+	for _, st := range cc.Body {
+		pm := parentMap(st)
+		ast.Inspect(st, func(m ast.Node) bool {
+			as, isAs := m.(*ast.AssignStmt)
+			if !isAs || len(as.Lhs) != 1 || len(as.Rhs) != 1 {
+				return true
+			}
+			id, isID := as.Lhs[0].(*ast.Ident)
+			call, isCall := as.Rhs[0].(*ast.CallExpr)
+			if !isID || !isCall || info.ObjectOf(id) != v || builtinName(info, call) != "append" {
+				return true
+			}
+			n++
+			guarded := false
+			var child ast.Node = as
+			for p := pm[as]; p != nil; child, p = p, pm[p] {
+				ifs, isIf := p.(*ast.IfStmt)
+				if !isIf {
+					continue
+				}
+				edge := child == ifs.Body
+				if !edge && child != ifs.Else {
+					continue
+				}
+				for _, f := range impliedFacts(ifs.Cond, edge) {
+					if isSelfFact(f) {
+						guarded = true
+					}
+				}
+			}
+			if !guarded {
+				ok = false
+			}
+			return true
+		})
+	}
+	return ok && n > 0
+}
+
+func derefType(t types.Type) types.Type {
+	if p, ok := t.(*types.Pointer); ok {
+		return p.Elem()
+	}
+	return t
 }
